@@ -24,6 +24,7 @@ REGISTRY_MODULES = {
 class Registry:
     def __init__(self, ctx, backend: str):
         rel, name = REGISTRY_MODULES[backend]
+        self.ctx = ctx
         self.backend = backend
         self.module: Module = ctx.repo.get_module(rel)
         self.name = name
@@ -70,7 +71,19 @@ class Registry:
         c = e.get("call")
         if isinstance(c, ast.Name) and c.id in self.module.functions:
             f = self.module.functions[c.id]
-            # the template is the f-string assigned to `func` (or returned)
+            # the template is the text returned as second element of `(name, definition)`, assembled from f-strings in any way
+            # (one literal, head + body parts, concatenation); evaluated per path with local string variables spliced in
+            from engine.templates import template_text, emissions
+            texts = []
+            for decisions, lines, ps in emissions(self.ctx, f, sinks=(), returns=True):
+                for em in lines:
+                    v = em.arg
+                    if isinstance(v, ast.Tuple) and len(v.elts) == 2:
+                        t = template_text(v.elts[1], em.env)
+                        if t is not None and len(t) > 80:
+                            texts.append((t, em.stmt))
+            if texts and len({t for t, _ in texts}) == 1:
+                return texts[0][0], texts[0][1], "template"
             for n in walk_shallow(f.node):
                 if isinstance(n, ast.Assign) and isinstance(n.value, ast.JoinedStr) and len(ast.unparse(n.value)) > 80:
                     return fstring_template(n.value), n, "template"
@@ -211,10 +224,10 @@ _ASSIGN = re.compile(r"^\s*([A-Za-z_⟨⟩][\w⟨⟩]*)\s*=\s*(.+?)\s*$")
 
 
 def check_fortran_interp(template: str) -> Tuple[bool, str, dict]:
-    mh = re.search(r"function\s+⟨(\w+)⟩\s*\(", template)
+    mh = re.search(r"function\s+([\w⟨⟩]*⟨\w+⟩[\w⟨⟩]*)\s*\(", template)
     if not mh:
         raise AnalysisError("fortran interp: `function <name>(...)` header with a name hole not found (unrecognised form)")
-    text = template.replace("⟨" + mh.group(1) + "⟩", "FNAME")
+    text = template.replace(mh.group(1), "FNAME")
     facts = {}
     lines = [l.strip() for l in text.splitlines()]
     # search loop: `if (x(n) > x_new) exit` => after the loop x(n-1) <= x_new < x(n)
